@@ -137,6 +137,14 @@ def norm_term(t):
     if not isinstance(t, tuple) or not t:
         return t
     k = t[0]
+    # the length of a slice made from raw parts is the length it was made with
+    if (k == "call" and t[1].name == "len" and t[2]) or (k == "un" and t[1] == "PtrMetadata"):
+        inner = strip(t[2][0] if k == "call" else t[2])
+        while isinstance(inner, tuple) and inner and inner[0] in ("ref", "deref", "mutref_of"):
+            inner = strip(inner[1])
+        if isinstance(inner, tuple) and inner and inner[0] == "call" and inner[1].name in ("from_raw_parts", "from_raw_parts_mut") \
+                and len(inner[2]) == 2:
+            return norm_term(inner[2][1])
     if k == "call":
         return (t[0], t[1], tuple(norm_term(a) for a in t[2])) + tuple(t[3:])
     if k == "field":
